@@ -1,7 +1,7 @@
 (* C08 — decoders are total: no panic, no hang, bounded memory. What is
    proved concerns the logic of the models (DESIGN.md: the Go allocator, GC
    and wall time are measured by the harness, not proved). *)
-From V Require Import Base.Prelude Base.Prog XFlate.Index XFlate.Reader XFlate.Thms Life.ReadLoop.
+From V Require Import Base.Prelude Base.Prog Flate.Spec Flate.Safe Brotli.Spec Brotli.Safe XFlate.Index XFlate.Reader XFlate.Thms Life.ReadLoop.
 
 (* the index record loop appends at most |payload|/2 records, whatever
    record count the index declares (repair D3) *)
@@ -30,3 +30,28 @@ Theorem read_respects_buffer : forall wrap v p0 s0 r n,
   delivered r' = delivered r ++ c /\ (length c <= n)%nat.
 Proof. exact read_appends. Qed.
 Print Assumptions read_respects_buffer.
+
+(* the DEFLATE decoder model, for every input and loop budget: it never reaches
+   EPanic (a window copy out of range) and fails only with UnexpectedEOF,
+   Corrupted or the exhausted loop budget *)
+Theorem flate_decoder_never_panics : forall d input,
+  match res_err (run (inflate_prog d) (ast_init (bytes_to_bits input))) with
+  | Some e => e = EUEOF \/ e = ECorrupted \/ e = EFuel
+  | None => True
+  end.
+Proof. exact inflate_never_panics. Qed.
+Print Assumptions flate_decoder_never_panics.
+
+(* the Brotli decoder model, for every static dictionary and every input *)
+Theorem brotli_decoder_never_panics : forall dict input,
+  br_err (brotli_decode dict input) <> Some EPanic.
+Proof. exact brotli_never_panics. Qed.
+Print Assumptions brotli_decoder_never_panics.
+
+Theorem brotli_decoder_error_classes : forall dict input,
+  match br_err (brotli_decode dict input) with
+  | None => True
+  | Some e => e = EUEOF \/ e = ECorrupted \/ e = EFuel
+  end.
+Proof. exact brotli_only_expected_errors. Qed.
+Print Assumptions brotli_decoder_error_classes.
